@@ -63,6 +63,8 @@ def _chunk(items):
         if e != g:
             bad.append((clause, dict(case, expected=e, actual=g)))
             continue
+        if printed == '' and exp['nodes']:
+            continue          # tree-only instance
         # the printed markup (AbbrPrint.tla) against expand(), both read by the tag lexer and compared on the same components
         cfg = {'options': {'output.format': False, 'output.selfClosingStyle': 'xhtml'}}
         if limit is not None:
@@ -89,9 +91,9 @@ def _chunk(items):
     return bad
 
 
-def differential(out, name, consts, fields, clause, limit=None, simulate=None, depth=None, cap=None, nontrivial=None):
+def differential(out, name, consts, fields, clause, limit=None, simulate=None, depth=None, cap=None, nontrivial=None, tree_only=False):
     """one instance: TLC run of AbbrGrammar with `consts`, every vector replayed through abbreviation.parse()"""
-    c = dict(consts, RepeatLimit=UNLIMITED if limit is None else limit, SelfClosingStyle='xhtml', ScChild=False)
+    c = dict(consts, RepeatLimit=UNLIMITED if limit is None else limit, SelfClosingStyle='xhtml', ScChild=False, TreeOnly=tree_only)
     kw = dict(constants=c, timeout=3000, heap='8g')
     if simulate:
         kw.update(simulate=simulate, depth=depth, seed=out.seed)
@@ -167,7 +169,7 @@ def _indent_chunk(items):
 
 
 def indent_differential(out, name, consts, indents=('\t', '  ', 'xy '), per_vector=2):
-    c = dict(consts, RepeatLimit=UNLIMITED, SelfClosingStyle='html', ScChild=True)
+    c = dict(consts, RepeatLimit=UNLIMITED, SelfClosingStyle='html', ScChild=True, TreeOnly=False)
     r = common.run_tlc('AbbrGrammar', constants=c, timeout=3000, heap='8g')
     if r.violated:
         out.add_tlc(name, r)
@@ -245,7 +247,7 @@ def _tabstop_chunk(items):
 
 
 def tabstop_differential(out, name, consts, per_vector=2):
-    c = dict(consts, RepeatLimit=UNLIMITED, SelfClosingStyle='html', ScChild=False)
+    c = dict(consts, RepeatLimit=UNLIMITED, SelfClosingStyle='html', ScChild=False, TreeOnly=False)
     r = common.run_tlc('AbbrGrammar', constants=c, timeout=3000, heap='8g')
     if r.violated:
         out.add_tlc(name, r)
